@@ -39,6 +39,7 @@ int main_loop(F f)
             ans = std::string("EXCEPTION ") + e.what();
         }
         std::cout << id << ' ' << ans << '\n';
+        std::cout.flush();   // a crash in a later case must not swallow the answers already given
     }
     std::cout.flush();
     return 0;
